@@ -183,7 +183,13 @@ def judgeLines (ooo : Bool) (pairs : List (String × String)) : Option String :=
           | some (x, y) =>
             if x = y ∨ (ooo ∧ f.head? ≠ some "q") then none else
             let kind := match parseRows? x, parseRows? y with
-              | some ra, some rb => neKind h "cont" "-" ra rb
+              | some ra, some rb =>
+                -- `b-lost-older-samples` (finding F33): the copy that was opened by WAL replay, shut
+                -- down cleanly (snapshot) and opened from that snapshot lacks samples that are not
+                -- the newest of their series (the ones held in m-mapped chunks); nothing else differs
+                let newest : Nat → Option Smp := fun i => (ra.find? (fun (p : Nat × List Smp) => p.1 == i)).bind fun p => p.2.getLast?
+                if subRows rb ra ∧ !(minus ra rb).isEmpty ∧ (minus ra rb).all (fun (x : Nat × Smp) => newest x.1 != some x.2)
+                then "b-lost-older-samples" else neKind h "cont" "-" ra rb
               | _, _ => "other"
             some s!"violation cont-differs kind={kind} step={k} op=`{opPart op}` a={x} b={y}"
           | none => none
